@@ -5,10 +5,12 @@ import (
 	"go/ast"
 	"go/token"
 	"go/types"
+	"os"
 	"sort"
 	"strings"
 
 	"golang.org/x/tools/go/cfg"
+	"golang.org/x/tools/go/ssa"
 )
 
 // ---------------------------------------------------------------------------
@@ -895,4 +897,143 @@ func ruleCompressFrame(c *Ctx) {
 	}
 	c.Floor("lz4.CompressBlock sites", nc, 1)
 	c.Floor("lz4.UncompressBlock sites", nu, 1)
+}
+
+// ---------------------------------------------------------------------------
+// decoder-panics: nothing reachable from a binary decoder (DecodeBinary methods, stackitem.Deserialize*) panics
+// explicitly, except at tabled sites that only a programming error (not input bytes) can reach.
+
+var decoderPanicOK = map[string]string{
+	"pkg/core/mpt.(*BaseNode).updateHash":             "call-graph imprecision: reached only through the Hash()/EncodeBinary interface methods of unrelated types on the re-encoding side of nef.CalculateChecksum; no decoder holds a trie node except mpt.NodeObject, which builds nodes whose encoding cannot fail",
+	"pkg/core/mpt.(*HashNode).Hash":                   "call-graph imprecision (see updateHash): an empty HashNode is created only by the trie code, never by a decoder",
+	"pkg/core/mpt.(EmptyNode).Hash":                   "call-graph imprecision (see updateHash): decoders never ask an EmptyNode for its hash",
+	"pkg/core/transaction.(*Transaction).Hash":        "Hash() panics only if encoding the transaction into a memory buffer fails; the transaction was just decoded, every field is within its limits, the buffer writer cannot fail",
+	"pkg/io.(*BinReader).ReadArray":                   "programming errors only (the argument is not a pointer to a slice / the element type is not Decodable): decided by the static type at the call site, not by input bytes",
+	"pkg/io.(*BinWriter).WriteArray":                  "programming errors only (not a slice / element not Encodable), on the re-encoding side",
+	"pkg/io.GetVarSize":                               "programming errors only (unsupported static type), on the size/re-encoding side",
+	"pkg/smartcontract/nef.(*File).CalculateChecksum": "panics only if serialising the file into a memory buffer fails; BytesLong applies no size limit and the buffer writer cannot fail",
+	"pkg/vm.(*exceptionHandlingContext).TryBool":      "call-graph imprecision: exceptionHandlingContext implements stackitem.Item only to live on the VM's try stack; no decoder creates one",
+	"pkg/vm.(*exceptionHandlingContext).Type":         "call-graph imprecision (see TryBool)",
+	"pkg/vm/stackitem.(*Map).Add#2":                   "the read-only panic: a decoder adds to a map it has just created, which is never read-only",
+}
+
+// decoderPanicGate: a panic that input bytes could reach, kept unreachable by a validation the decoder performs first:
+// in every decoder-reachable caller each call of the panicking function is preceded by a call of the validator.
+var decoderPanicGate = map[string]struct{ validator, why string }{
+	// validator: alternatives separated by |
+	"pkg/vm/stackitem.(*Map).Add#1":  {"pkg/vm/stackitem.IsValidMapKey", "invalid map key"},
+	"pkg/vm/stackitem.hashCode":      {"pkg/vm/stackitem.IsValidMapKey", "invalid map key (reached through Map.Add)"},
+	"pkg/encoding/bigint.FromBytes":  {"pkg/io.(*BinReader).ReadVarBytes", "more than MaxBytesLen bytes: the decoder reads the integer with ReadVarBytes(bigint.MaxBytesLen)"},
+	"pkg/vm/stackitem.NewBigInteger": {"pkg/io.(*BinReader).ReadVarBytes|pkg/vm/stackitem.CheckIntegerSize", "integer out of range (the binary decoder reads at most MaxBytesLen = 32 bytes of two's complement, which is within [-2^255, 2^255); the JSON decoder checks the size first)"},
+}
+
+func ruleDecoderPanics(c *Ctx) {
+	g := c.P.MRG()
+	var roots []*ssa.Function
+	for _, fd := range c.P.AllFuncDecls() {
+		if fd.Decl.Body == nil || !InModule(fd.Obj.Pkg()) {
+			continue
+		}
+		n := fd.Obj.Name()
+		rel := pkgRel(fd.Obj.Pkg())
+		if strings.HasPrefix(rel, "pkg/rpcclient") || strings.HasPrefix(rel, "cli") || strings.HasPrefix(rel, "internal") {
+			continue // client-side and tooling decoders are not the node's
+		}
+		if n == "DecodeBinary" || n == "UnmarshalJSON" || n == "FromStackItem" || (rel == "pkg/vm/stackitem" && (strings.HasPrefix(n, "Deserialize") || n == "DecodeBinaryProtected" || strings.HasPrefix(n, "FromJSON"))) {
+			if fn := c.P.SSAFunc(fd.Obj); fn != nil {
+				roots = append(roots, fn)
+			}
+		}
+	}
+	via := g.Reach(roots, nil)
+	var fns []*ssa.Function
+	for fn := range via {
+		fns = append(fns, fn)
+	}
+	sort.Slice(fns, func(i, j int) bool { return FnKey(fns[i]) < FnKey(fns[j]) })
+	npan := 0
+	for _, fn := range fns {
+		if fn.Pkg == nil || !InModule(fn.Pkg.Pkg) {
+			continue
+		}
+		k := 0
+		for _, b := range fn.Blocks {
+			for _, ins := range b.Instrs {
+				p, ok := ins.(*ssa.Panic)
+				if !ok || !p.Pos().IsValid() {
+					continue // compiler-inserted panics of range-over-func loops have no position
+				}
+				npan++
+				k++
+				key := fmt.Sprintf("%s.panic#%d", FnKey(fn), k)
+				if os.Getenv("NV_DPANIC") != "" {
+					fmt.Println("DPANIC", key, c.P.Pos(p.Pos()), strings.Join(g.PathTo(via, fn), " <- "))
+				}
+				gate, gated := decoderPanicGate[fmt.Sprintf("%s#%d", FnKey(fn), k)]
+				if !gated {
+					gate, gated = decoderPanicGate[FnKey(fn)]
+				}
+				why, tabled := decoderPanicOK[fmt.Sprintf("%s#%d", FnKey(fn), k)]
+				if !tabled {
+					why, tabled = decoderPanicOK[FnKey(fn)]
+				}
+				if gated {
+					// the direct callers of the gated function that are themselves reachable; hashCode is entered through Map.Add
+					target := fn
+					if FnKey(fn) == "pkg/vm/stackitem.hashCode" {
+						for _, e := range g.Nodes[fn].In {
+							if FnKey(e.Caller.Fn) == "pkg/vm/stackitem.(*Map).Add" {
+								target = e.Caller.Fn
+							}
+						}
+					}
+					bad := ""
+					ncall := 0
+					for _, e := range g.Nodes[target].In {
+						if _, ok := via[e.Caller.Fn]; !ok || e.Caller.Fn.Pkg == nil || !InModule(e.Caller.Fn.Pkg.Pkg) {
+							continue
+						}
+						cfo, _ := e.Caller.Fn.Object().(*types.Func)
+						cfd := c.P.DeclOf(cfo)
+						if cfd == nil {
+							continue
+						}
+						cf := c.P.NewFuncCFG(cfd)
+						targets := cf.CallSites(FnKey(target))
+						if len(targets) == 0 {
+							continue
+						}
+						ncall += len(targets)
+						ok, path := cf.mustBefore(cf.Entry(), targets, cf.CallSites(strings.Split(gate.validator, "|")...), nil)
+						if !ok {
+							// the other accepted idiom: the caller compares the length of the data with a limit and bails out
+							res := cf.CheckGate(cf.Entry(), blocksOf(targets), Guard{ID: "len", Doc: "length compared with the limit", Alts: [][]string{{"builtin.len"}}, WholeOpen: true}, nil)
+							for _, gp := range res.GatePos {
+								if res.OK && strings.ContainsAny(gp, "<>") {
+									ok = true
+								}
+							}
+						}
+						if !ok {
+							bad = fmt.Sprintf("%s calls %s on a path that does not pass %s first (%s)", FnKey(e.Caller.Fn), shortSym(FnKey(target)), shortSym(gate.validator), strings.Join(path, " -> "))
+						}
+					}
+					switch {
+					case bad != "":
+						c.Fail(key, c.P.Pos(p.Pos()), fmt.Sprintf("%s panics on %s, and a decoder reaches it unvalidated: %s", FnKey(fn), gate.why, bad))
+					case ncall == 0:
+						c.Unclassified(key, c.P.Pos(p.Pos()), "gated panic whose decoder-side call sites were not found")
+					default:
+						c.OK(key, c.P.Pos(p.Pos()), fmt.Sprintf("panics on %s; every one of the %d decoder-side call sites is preceded by %s", gate.why, ncall, shortSym(gate.validator)))
+					}
+				} else if tabled {
+					c.OK(key, c.P.Pos(p.Pos()), "tabled: "+why)
+				} else {
+					c.Fail(key, c.P.Pos(p.Pos()), FnKey(fn)+" panics explicitly and is reachable from a binary decoder: bytes from the network or the database must produce an error, not a panic", g.PathTo(via, fn)...)
+				}
+			}
+		}
+	}
+	c.Floor("binary decoder entry points", len(roots), 60)
+	c.Floor("functions reachable from decoders", len(fns), 100)
 }
